@@ -27,6 +27,7 @@ func checkC19(c *Ctx) {
 	c.Rule("C19/R6", "sibling recognisers: the new and the legacy 'key: value' line recognisers apply the same predicates (lower-case start, no space/upper in key, ':' after position 0, blank/tab separated value)")
 	c.Rule("C19/R7", "results are immutable: in the legacy reader every write to the current label map happens after the map was replaced by a copy in the same call; labels added by the server (permanent labels) are never set or removed by file content")
 
+	c.Rule("C19/R13", "labels derived from names: the gomaxprocs label of a stored benchmark is the text after the name's last dash (strings.LastIndex); an upload's file name is derived by slicing, never through path.Base or filepath.Base")
 	c.Rule("C19/R12", "label sets are coalesced only when equal: in Labels.Equal a differing value and (where presence is tested) an absent key both lead to 'return false'")
 	c.Rule("C19/R10", "the query splitter undoes addToQuery's quoting: in parseQueryString the test for a backslash alone decides that the next byte is skipped")
 	c.Rule("C19/R11", "numbers are read back whole from upload IDs: no regular expression literal in storage/db has a capture group under a repetition operator")
@@ -43,6 +44,7 @@ func checkC19(c *Ctx) {
 	c19Limit(c, p)
 	c19Escapes(c, p)
 	c19LabelsEqual(c, p)
+	c19NameLabels(c, p)
 	c19RepeatedCaptures(c, p, "C19/R11")
 	c20FreshMetaAll(c, p, "C19/R9")
 }
@@ -1273,4 +1275,57 @@ func c19LabelsEqual(c *Ctx, p *Prog) {
 		}
 	}
 	c.Floor(R, "decisions in Labels.Equal", n, 1)
+}
+
+// c19NameLabels (C19/R13): (a) the processor count of a stored benchmark name is what follows its LAST dash: in
+// storage/benchfmt the value stored under the gomaxprocs label is a suffix of the name cut at strings.LastIndex(name,
+// "-") — a name such as Encode/gzip-best-8 has dashes of its own; (b) the file name an upload is labelled with is a
+// suffix of what the client sent: storage/app derives it by slicing, never through path.Base / filepath.Base, which turn
+// the empty name into "." (and records then match upload-file:. ).
+func c19NameLabels(c *Ctx, p *Prog) {
+	const R = "C19/R13"
+	n := 0
+	for _, fn := range p.Funcs("storage/benchfmt") {
+		eachInstr(fn, func(_ *ssa.BasicBlock, in ssa.Instruction) {
+			mu, ok := in.(*ssa.MapUpdate)
+			if !ok {
+				return
+			}
+			if s, ok := constString(mu.Key); !ok || s != "gomaxprocs" {
+				return
+			}
+			n++
+			okCut := false
+			if sl, ok := mu.Value.(*ssa.Slice); ok && sl.Low != nil {
+				if add, ok := sl.Low.(*ssa.BinOp); ok && add.Op == token.ADD {
+					for _, side := range []ssa.Value{add.X, add.Y} {
+						if call, ok := side.(*ssa.Call); ok {
+							if co := calleeObj(&call.Call); co != nil && co.Pkg() != nil && co.Pkg().Path() == "strings" && strings.HasPrefix(co.Name(), "LastIndex") {
+								okCut = true
+							}
+						}
+					}
+				}
+			}
+			c.Check(okCut, R, fmt.Sprintf("%s:gomaxprocs-at-last-dash#%d", fnName(fn), n), p.pos(mu.Pos()), "the gomaxprocs label is the text after the name's last dash",
+				"the gomaxprocs label is not cut at the last dash of the name (strings.LastIndex): a benchmark whose name has a dash of its own (Encode/gzip-best-8) loses its gomaxprocs label and is indexed under the whole tail, so gomaxprocs:8 no longer returns it")
+		})
+	}
+	c.Floor(R, "gomaxprocs labels derived from names", n, 1)
+	nb := 0
+	for _, fn := range p.Funcs("storage/app") {
+		eachInstr(fn, func(_ *ssa.BasicBlock, in ssa.Instruction) {
+			call, ok := in.(*ssa.Call)
+			if !ok {
+				return
+			}
+			co := calleeObj(&call.Call)
+			if co == nil || co.Pkg() == nil || co.Name() != "Base" || (co.Pkg().Path() != "path" && co.Pkg().Path() != "path/filepath") {
+				return
+			}
+			nb++
+			c.Bad(R, fmt.Sprintf("%s:file-name-through-Base#%d", fnName(fn), nb), p.pos(call.Pos()), "the uploaded file's name is passed through "+co.FullName()+", which turns an empty name into \".\": a part sent without a file name is then labelled upload-file: . and is returned by queries on that label")
+		})
+	}
+	c.OK(R, "file-names:sliced", "", "no upload file name goes through a Base function")
 }
